@@ -479,14 +479,19 @@ Inductive ferr := FDuplicateName | FOverwrite.
 
 Inductive fout := FO (o : out) | FE (e : ferr).
 
-(* graph.Index(ctx, s, expected) after a successful store: content.Successors fetches the
-   content through the store itself, for manifest media types only *)
+(* restoreDuplicates / graph.Index(ctx, s, expected) after a successful store:
+   content.Successors fetches the content through the store itself (content.FetchAll
+   verifies what it reads against the descriptor), for manifest media types only.  The
+   verification is modelled on the hash: equal hash, equal bytes (collision freedom). *)
 Definition file_index_after (d : desc) (s1 : file_store) : file_store * fout :=
   if is_manifest (d_mt d) then
     match file_fetch d s1 with
     | None => (s1, FO (OErr ENotFound))
-    | Some c1 => (mkFile (f_names s1) (f_d2p s1) (f_disk s1) (f_cas s1) (f_res s1)
-                         (g_index d (succ_of (gk d) c1) (f_graph s1)), FO OOk)
+    | Some c1 =>
+        if d_dig d =? b_hash c1
+        then (mkFile (f_names s1) (f_d2p s1) (f_disk s1) (f_cas s1) (f_res s1)
+                     (g_index d (succ_of (gk d) c1) (f_graph s1)), FO OOk)
+        else (s1, FO (OErr EMismatch))
     end
   else (mkFile (f_names s1) (f_d2p s1) (f_disk s1) (f_cas s1) (f_res s1)
                (g_index d [] (f_graph s1)), FO OOk).
